@@ -656,7 +656,7 @@ Qed.
 
 Lemma hub_step_inv : forall h o, cache_inv h -> wf_hop o -> cache_inv (fst (hub_step O ks h o)).
 Proof.
-  intros h o H W. destruct o as [d ts1 iv1 ts2 iv2|sid|r id|id]; cbn [hub_step].
+  intros h o H W. destruct o as [d ts1 iv1 ts2 iv2|sid|r id|id|r id]; cbn [hub_step].
   - destruct W as [W1 W2].
     destruct (encode_private O ks ts1 iv1 d) as [priv|] eqn:E1; [|exact H].
     destruct (encode_public O ks ts2 iv2 d) as [pub|] eqn:E2; [|exact H]. cbn [fst].
@@ -668,9 +668,10 @@ Proof.
     unfold cache_inv. cbn [caches]. apply hub_invalidate_inv. apply hub_invalidate_inv. exact H.
   - pose proof (hub_lookup_inv r h id H) as G. destruct (hub_lookup O ks r h id) as [h' o]. exact G.
   - pose proof (hub_lookup_inv Private h id H) as G. destruct (hub_lookup O ks Private h id) as [h' o]. exact G.
+  - pose proof (hub_decode_inv r h id H) as G. destruct (hub_decode O ks r h id) as [h' o]. exact G.
 Qed.
 
-Fixpoint hub_run (h : hub) (ops : list (hop data)) : hub * list (hop data * hout) :=
+Fixpoint hub_run (h : hub) (ops : list (hop data)) : hub * list (hop data * hout data) :=
   match ops with
   | [] => (h, [])
   | o :: r => let '(h1, v) := hub_step O ks h o in
@@ -706,7 +707,7 @@ Qed.
 
 (* ---- the session table is what was handed out ------------------------------------------------------------- *)
 (* computed from observations only: the ids of the answers to registrations, minus removals *)
-Fixpoint live_from (l : list (N * (bytes * bytes))) (tr : list (hop data * hout)) : list (N * (bytes * bytes)) :=
+Fixpoint live_from (l : list (N * (bytes * bytes))) (tr : list (hop data * hout data)) : list (N * (bytes * bytes)) :=
   match tr with
   | [] => l
   | (HRegister d _ _ _ _, HIds p q) :: r => live_from ((sid_of O d, (p, q)) :: session_del (sid_of O d) l) r
@@ -741,7 +742,7 @@ Proof.
   induction ops as [|o ops IH]; intro h; [reflexivity|]. cbn [hub_run].
   destruct (hub_step O ks h o) as [h1 v] eqn:S. specialize (IH h1).
   destruct (hub_run h1 ops) as [h2 tr]. cbn [fst snd] in *. rewrite IH. clear IH.
-  destruct o as [d ts1 iv1 ts2 iv2|sid|r id|id]; cbn [hub_step] in S.
+  destruct o as [d ts1 iv1 ts2 iv2|sid|r id|id|r id]; cbn [hub_step] in S.
   - destruct (encode_private O ks ts1 iv1 d) as [priv|]; [|injection S as <- <-; reflexivity].
     destruct (encode_public O ks ts2 iv2 d) as [pub|]; injection S as <- <-; [|reflexivity].
     cbn [live_from]. rewrite !hub_set_decoded_sessions. reflexivity.
@@ -752,6 +753,73 @@ Proof.
     cbn [fst] in G. rewrite G. destruct o; reflexivity.
   - pose proof (hub_lookup_sessions Private h id) as G. destruct (hub_lookup O ks Private h id) as [h' o]. injection S as <- <-.
     cbn [fst] in G. rewrite G. destruct o; reflexivity.
+  - pose proof (hub_decode_sessions r h id) as G. destruct (hub_decode O ks r h id) as [h' o]. injection S as <- <-.
+    cbn [fst] in G. rewrite G. destruct o; reflexivity.
+Qed.
+
+(* ---- the hub's decoder of a role (decodePrivateSessionId / decodePublicSessionId) ------------------------ *)
+(* it returns data only for a string that the codec accepts FOR THAT ROLE, and then that data;
+   in every state of the caches that the invariant allows (every reachable one) *)
+Theorem hub_decode_step_sound : forall r h id h' d, cache_inv h ->
+  hub_step O ks h (HDecode r id) = (h', HData d) -> decode O r ks id = Ok d.
+Proof.
+  intros r h id h' d H S. cbn [hub_step] in S. pose proof (cache_transparent r h id H) as T.
+  destruct (hub_decode O ks r h id) as [h1 [d1|]]; cbn [snd] in T; [|discriminate].
+  injection S as _ <-. destruct (decode O r ks id) as [d2|]; [|discriminate]. injection T as <-. reflexivity.
+Qed.
+Theorem hub_decode_step_complete : forall r h id d, cache_inv h ->
+  decode O r ks id = Ok d -> snd (hub_step O ks h (HDecode r id)) = HData d.
+Proof.
+  intros r h id d H D. cbn [hub_step]. pose proof (cache_transparent r h id H) as T. rewrite D in T.
+  destruct (hub_decode O ks r h id) as [h1 o]. cbn [snd] in *. rewrite T. reflexivity.
+Qed.
+Theorem hub_decode_step_refuses : forall r h id, cache_inv h ->
+  (forall d, decode O r ks id <> Ok d) -> snd (hub_step O ks h (HDecode r id)) = HNoData.
+Proof.
+  intros r h id H D. cbn [hub_step]. pose proof (cache_transparent r h id H) as T.
+  destruct (hub_decode O ks r h id) as [h1 o]. cbn [snd] in *. rewrite T.
+  destruct (decode O r ks id) as [d|]; [exfalso; exact (D d eq_refl) | reflexivity].
+Qed.
+
+(* over histories: whatever was registered, removed, looked up and decoded before (under
+   either role), with whatever cache sizes *)
+Theorem hub_run_decode_sound : forall ops h r id d, cache_inv h -> Forall wf_hop ops ->
+  In (HDecode r id, HData d) (snd (hub_run h ops)) -> decode O r ks id = Ok d.
+Proof.
+  induction ops as [|o ops IH]; intros h r id d H W I; [destruct I|].
+  cbn [hub_run] in I. inversion W as [|? ? Wo Wr]; subst.
+  pose proof (hub_step_inv h o H Wo) as H1.
+  destruct (hub_step O ks h o) as [h1 v] eqn:S. cbn [fst] in H1.
+  destruct (hub_run h1 ops) as [h2 tr] eqn:R. cbn [snd] in I. destruct I as [I|I].
+  - injection I as -> ->. exact (hub_decode_step_sound _ _ _ _ _ H S).
+  - apply (IH h1 r id d H1 Wr). rewrite R. exact I.
+Qed.
+
+(* roles at the hub: one string that the hub decodes under both roles -- in whatever two
+   states, e.g. right after the registration that primed the caches with both ids of the
+   session -- carries correct MACs of two different messages *)
+Theorem hub_role_separation : forall ops h s d d', cache_inv h -> Forall wf_hop ops ->
+  In (HDecode Private s, HData d) (snd (hub_run h ops)) ->
+  In (HDecode Public s, HData d') (snd (hub_run h ops)) ->
+  exists ts v ts' v',
+    s = id_string Private ts v (hmac O (hk ks) (mac_msg (role_name Private) ts v)) /\
+    s = id_string Public ts' v' (hmac O (hk ks) (mac_msg (role_name Public) ts' v')) /\
+    mac_msg (role_name Private) ts v <> mac_msg (role_name Public) ts' v'.
+Proof.
+  intros ops h s d d' H W I I'.
+  exact (role_separation_same_string O ks s d d' (hub_run_decode_sound _ _ _ _ _ H W I) (hub_run_decode_sound _ _ _ _ _ H W I')).
+Qed.
+(* and the swap: the id of one role, reversed, decoded by the hub under the other role *)
+Theorem hub_role_separation_swap : forall ops h s s' d d', cache_inv h -> Forall wf_hop ops ->
+  In (HDecode Private s, HData d) (snd (hub_run h ops)) ->
+  In (HDecode Public s', HData d') (snd (hub_run h ops)) ->
+  reverse_id s = Some s' \/ reverse_id s' = Some s ->
+  exists ts v,
+    hmac O (hk ks) (mac_msg (role_name Private) ts v) = hmac O (hk ks) (mac_msg (role_name Public) ts v) /\
+    mac_msg (role_name Private) ts v <> mac_msg (role_name Public) ts v.
+Proof.
+  intros ops h s s' d d' H W I I' R.
+  exact (role_separation_swap_either O ks s s' d d' (hub_run_decode_sound _ _ _ _ _ H W I) (hub_run_decode_sound _ _ _ _ _ H W I') R).
 Qed.
 
 End Hub.
